@@ -855,6 +855,14 @@ def _points_to_matrix(ctx: Ctx) -> None:
             s, ast.AugAssign) and isinstance(s.op, ast.Add) and isinstance(
             s.target, ast.Name) and repo.const(fi.module, s.value) == 1),
             None)
+        if idx is None:
+            # n = n + 1 / n = 1 + n
+            for s in rd.body:
+                if isinstance(s, ast.Assign) and len(
+                        s.targets) == 1 and isinstance(
+                        s.targets[0], ast.Name) and src(s.value) in (
+                        f"{s.targets[0].id}+1", f"1+{s.targets[0].id}"):
+                    idx = s.targets[0].id
         pre = body[:body.index(rd)]
         if idx is None or not any(isinstance(s, (ast.Assign, ast.AnnAssign))
                                   and src(s.targets[0] if isinstance(
@@ -879,7 +887,52 @@ def _points_to_matrix(ctx: Ctx) -> None:
             wantn = {w.replace("(", "").replace(")", "") for w in
                      (f"len({row})!={dim_}+1",
                       f"notisinstance({row}[0],int)", f"{row}[0]!={idx}")}
-            if norm != wantn:
+            table_ok = False
+            if chk is not None:
+                # the raise condition as a propositional formula over the
+                # three facts A: len(row) == dim + 1, B: isinstance(row[0],
+                # int), C: row[0] == idx; it must be (not A) or (not B) or
+                # (not C) - compared on all 8 assignments
+                def atom(e: ast.expr) -> tuple[str, bool] | None:
+                    t_ = src(e).replace("(", "").replace(")", "")
+                    table = {
+                        f"len{row}=={dim_}+1": ("A", True),
+                        f"{dim_}+1==len{row}": ("A", True),
+                        f"len{row}!={dim_}+1": ("A", False),
+                        f"{dim_}+1!=len{row}": ("A", False),
+                        f"1+{dim_}==len{row}": ("A", True),
+                        f"len{row}==1+{dim_}": ("A", True),
+                        f"isinstance{row}[0],int": ("B", True),
+                        f"{row}[0]=={idx}": ("C", True),
+                        f"{idx}=={row}[0]": ("C", True),
+                        f"{row}[0]!={idx}": ("C", False),
+                        f"{idx}!={row}[0]": ("C", False)}
+                    return table.get(t_)
+
+                def val(e: ast.expr, asg: dict[str, bool]) -> bool | None:
+                    if isinstance(e, ast.UnaryOp) and isinstance(
+                            e.op, ast.Not):
+                        v_ = val(e.operand, asg)
+                        return None if v_ is None else not v_
+                    if isinstance(e, ast.BoolOp):
+                        vs = [val(x, asg) for x in e.values]
+                        if any(x is None for x in vs):
+                            return None
+                        return all(vs) if isinstance(e.op, ast.And) \
+                            else any(vs)
+                    a_ = atom(e)
+                    if a_ is None:
+                        return None
+                    return asg[a_[0]] == a_[1]
+                table_ok = True
+                for A_ in (True, False):
+                    for B_ in (True, False):
+                        for C_ in (True, False):
+                            got_ = val(chk.test, {"A": A_, "B": B_,
+                                                  "C": C_})
+                            if got_ is not (not (A_ and B_ and C_)):
+                                table_ok = False
+            if norm != wantn and not table_ok:
                 problems.append(
                     "a coordinate row is not rejected exactly when it has "
                     f"not {dim_}+1 entries or its first entry is not the "
@@ -918,49 +971,121 @@ def _points_to_matrix(ctx: Ctx) -> None:
                     zero[0], ast.Assign) else zero[0].target)
                 inner = next((s for s in fill.body if isinstance(s, ast.For)),
                              None)
-                iv = fill.target.id if isinstance(fill.target, ast.Name) \
-                    else "?"
-                ok_l = src(fill.iter) == f"range({n_})" and inner is not \
-                    None and isinstance(inner.target, ast.Name) and src(
+                from sa.pathinline import Path, paths
+                env0: dict[str, ast.expr] = {}
+                iv = "?"
+                ok_outer = False
+                if isinstance(fill.target, ast.Name) and src(
+                        fill.iter) == f"range({n_})":
+                    iv = fill.target.id
+                    ok_outer = True
+                elif isinstance(fill.target, ast.Tuple) and len(
+                        fill.target.elts) == 2 and all(isinstance(
+                            t, ast.Name) for t in fill.target.elts) and \
+                        src(fill.iter) == f"enumerate({coords})" and tot:
+                    # all rows of the coordinate list, whose length was
+                    # compared with n: the element stands for coords[i]
+                    iv = fill.target.elts[0].id
+                    env0[fill.target.elts[1].id] = ast.Subscript(
+                        value=ast.Name(id=coords, ctx=ast.Load()),
+                        slice=ast.Name(id=iv, ctx=ast.Load()),
+                        ctx=ast.Load())
+                    ok_outer = True
+                ok_l = ok_outer and inner is not None and isinstance(
+                    inner.target, ast.Name) and src(
                     inner.iter) in (f"range({iv})",)
                 if not ok_l:
                     problems.append("the pairs are not enumerated as j < i "
                                     "< n")
                 else:
                     jv = inner.target.id
-                    env = {}
-                    for s in fill.body[:fill.body.index(inner)] + inner.body:
-                        if isinstance(s, (ast.Assign, ast.AnnAssign)) and \
-                                isinstance(s.targets[0] if isinstance(
-                                    s, ast.Assign) else s.target, ast.Name):
-                            env[(s.targets[0] if isinstance(s, ast.Assign)
-                                 else s.target).id] = src(s.value)
-                    dcall = [k for k, v in env.items()
-                             if v.startswith(df_ + "(")]
+                    pre_q = paths(fill.body[:fill.body.index(inner)],
+                                  Path(env=dict(env0)))
+                    start_env = dict(pre_q[0].env) if len(pre_q) == 1 \
+                        else dict(env0)
+                    iq = paths(inner.body, Path(env=start_env))
+                    want_args = sorted([f"{coords}[{iv}]",
+                                        f"{coords}[{jv}]"])
                     ok_d = False
-                    if len(dcall) == 1:
-                        args = env[dcall[0]][len(df_) + 1:-1].split(",")
-                        res = sorted(env.get(a, a) for a in args)
-                        ok_d = res == sorted([f"{coords}[{iv}]",
-                                              f"{coords}[{jv}]"])
+                    neg_ok = False
+                    sym_ok = False
+                    dsrc = None
+                    for w in iq:
+                        for e in w.events:
+                            if e.kind == "store" and isinstance(
+                                    e.extra, ast.Call) and src(
+                                    e.extra.func) == df_:
+                                dsrc = src(e.extra)
+                                ok_d = sorted(src(a_) for a_ in
+                                              e.extra.args) == want_args \
+                                    and not e.extra.keywords
+                    if dsrc is not None:
+                        def dtruth(t_: ast.AST, d_: float) -> bool | None:
+                            if isinstance(t_, ast.UnaryOp) and isinstance(
+                                    t_.op, ast.Not):
+                                v_ = dtruth(t_.operand, d_)
+                                return None if v_ is None else not v_
+                            if isinstance(t_, ast.BoolOp):
+                                vs = [dtruth(x, d_) for x in t_.values]
+                                if any(x is None for x in vs):
+                                    return None
+                                return all(vs) if isinstance(
+                                    t_.op, ast.And) else any(vs)
+                            if isinstance(t_, ast.Call) and src(
+                                    t_.func) == "isinstance":
+                                return True       # an int distance
+                            if isinstance(t_, ast.Compare) and len(
+                                    t_.ops) == 1:
+                                def nv(x: ast.expr) -> float | None:
+                                    if src(x) == dsrc:
+                                        return d_
+                                    c_ = repo.const(fi.module, x)
+                                    return float(c_) if isinstance(
+                                        c_, (int, float)) and not \
+                                        isinstance(c_, bool) else None
+                                l_, r_ = nv(t_.left), nv(t_.comparators[0])
+                                if l_ is None or r_ is None:
+                                    return None
+                                return {ast.Lt: l_ < r_, ast.LtE: l_ <= r_,
+                                        ast.Gt: l_ > r_, ast.GtE: l_ >= r_,
+                                        ast.Eq: l_ == r_,
+                                        ast.NotEq: l_ != r_}.get(
+                                    type(t_.ops[0]))
+                            return None
+
+                        def raised(d_: float) -> bool | None:
+                            res_ = False
+                            for w in iq:
+                                if w.ended != "raise":
+                                    continue
+                                allg = True
+                                for t_, tr_ in w.guards:
+                                    v_ = dtruth(t_, d_)
+                                    if v_ is None:
+                                        return None
+                                    if v_ != tr_:
+                                        allg = False
+                                        break
+                                res_ = res_ or allg
+                            return res_
+                        neg_ok = raised(-1.0) is True and raised(
+                            0.0) is False and raised(1.0) is False
+                        for w in iq:
+                            if w.ended is not None:
+                                continue
+                            st = sorted(src(e.value) for e in w.events
+                                        if e.kind == "store" and src(
+                                            e.extra) == dsrc)
+                            sym_ok = st == sorted([f"{mname}[{iv},{jv}]",
+                                                   f"{mname}[{jv},{iv}]"]) \
+                                and len(w.events) == 2
                     if not ok_d:
                         problems.append("the stored value is not dist_func("
                                         "coordinates[i], coordinates[j])")
-                    else:
-                        st = sorted(src(s.targets[0]) for s in inner.body
-                                    if isinstance(s, ast.Assign) and isinstance(
-                                        s.targets[0], ast.Subscript)
-                                    and src(s.value) == dcall[0])
-                        if st != sorted([f"{mname}[{iv},{jv}]",
-                                         f"{mname}[{jv},{iv}]"]):
-                            problems.append(
-                                "the distance is not stored symmetrically "
-                                f"(stores: {st})")
-                    neg = [s for s in inner.body if isinstance(s, ast.If)
-                           and s.body and isinstance(s.body[-1], ast.Raise)
-                           and dcall and src(s.test) in (
-                               f"{dcall[0]}<0", f"0>{dcall[0]}")]
-                    if not neg:
+                    elif not sym_ok:
+                        problems.append("the distance is not stored "
+                                        "symmetrically")
+                    if not neg_ok:
                         problems.append("negative distances are not "
                                         "rejected (and only those)")
                 rets = [r for r in ast.walk(fi.node)
@@ -1063,7 +1188,9 @@ def _number_reading(ctx: Ctx) -> None:
                             "read")
         tail = [s for s in body if isinstance(s, ast.If) and s.body and
                 isinstance(s.body[-1], ast.Raise)]
-        if len(tail) != 1 or src(tail[0].test) != f"len({res})!={n_}":
+        from sa.srcmodel import inline_locals
+        if len(tail) != 1 or src(inline_locals(fi.node, tail[0].test)) \
+                not in (f"len({res})!={n_}", f"{n_}!=len({res})"):
             problems.append("a wrong number of values is not rejected")
         rets = [r for r in body if isinstance(r, ast.Return)]
         if len(rets) != 1 or src(rets[0].value) != res:
